@@ -28,8 +28,16 @@ pub fn differential_opts(
     tag: &str,
     opts: &RunOpts,
 ) -> (String, bool, Option<(String, String, String)>, vcore::Outcome) {
-    let (class, nt, bad, o) = differential_inner(prog, stdin, tag, opts);
+    let (class, nt, bad, o) = differential_inner(prog, stdin, tag, opts, &vcore::gprint::Layout::default());
     (class, nt, bad, o)
+}
+
+/// The same under another layout of the printed text (the reference works on the AST, the error rows
+/// go through the printer's position map).
+pub fn differential_layout(prog: &Prog, stdin: &[u8], tag: &str, layout: &vcore::gprint::Layout) -> (String, bool, Option<(String, String, String)>) {
+    let opts = RunOpts { stdin: stdin.to_vec(), budget: 400_000, ..RunOpts::default() };
+    let (a, b, c, _) = differential_inner(prog, stdin, tag, &opts, layout);
+    (a, b, c)
 }
 
 fn differential_inner(
@@ -37,8 +45,9 @@ fn differential_inner(
     stdin: &[u8],
     tag: &str,
     opts: &RunOpts,
+    layout: &vcore::gprint::Layout,
 ) -> (String, bool, Option<(String, String, String)>, vcore::Outcome) {
-    let printed = print_default(prog);
+    let printed = vcore::gprint::print(prog, layout);
     let r = run_reference(prog, stdin, &[]);
     let o = run_pipeline(&printed.text, opts);
     let mut all_executed = true;
@@ -86,17 +95,23 @@ pub fn worker(case: &Value) -> Value {
             let hi = case["hi"].as_u64().unwrap() as usize;
             let last = case["last"].as_bool().unwrap_or(false);
             let in_sub = case["sub"].as_bool().unwrap_or(false);
+            let one_line = case["one_line"].as_bool().unwrap_or(false);
+            let layout = vcore::gprint::Layout { one_line_blocks: one_line, ..Default::default() };
             let all = forests(nodes);
             for f in all.iter().skip(lo).take(hi - lo) {
                 let prog = if in_sub { control_program_in_sub(f, last) } else { control_program(f, last) };
-                let (class, nt, bad) = differential(&prog, b"", "A");
+                if one_line && !prog.main.iter().chain(prog.subs.iter().flat_map(|s| s.body.iter())).any(|s| vcore::gprint::inlineable(s) && matches!(s.k, vcore::gast::K::For { .. } | vcore::gast::K::While(..) | vcore::gast::K::Do(..) | vcore::gast::K::Select { .. })) {
+                    *hist.entry("not-generated:no construct can be written on one line".into()).or_insert(0) += 1;
+                    continue;
+                }
+                let (class, nt, bad) = differential_layout(&prog, b"", if one_line { "A1" } else { "A" }, &layout);
                 n += 1;
                 *hist.entry(class).or_insert(0) += 1;
                 if nt {
                     nontrivial += 1;
                 }
                 if sample.is_null() {
-                    sample = json!({"axis": "A", "shape": forest_shape(f), "text": print_default(&prog).text});
+                    sample = json!({"axis": if one_line { "A (one-line layout)" } else { "A" }, "shape": forest_shape(f), "text": vcore::gprint::print(&prog, &layout).text});
                 }
                 if let Some((sig, msg, text)) = bad
                     && bads.len() < 25
@@ -268,6 +283,18 @@ pub fn drive(tier: &str) -> i32 {
             plan.push(json!({"axis": "A", "nodes": nodes, "children_in_last_body": last, "inside_sub": in_sub, "programs": total}));
         }
     }
+    // axis A again with every loop / SELECT CASE that holds no block IF written on ONE source line
+    for nodes in 1..=(if quick { 2 } else { 3 }) {
+        let total = forests(nodes).len();
+        for (last, in_sub) in [(false, false), (true, false), (false, true)] {
+            let mut lo = 0;
+            while lo < total {
+                cases.push(json!({"axis": "A", "nodes": nodes, "lo": lo, "hi": (lo + 60).min(total), "last": last, "sub": in_sub, "one_line": true}));
+                lo += 60;
+            }
+            plan.push(json!({"axis": "A", "layout": "loops and SELECT CASE on one source line", "nodes": nodes, "children_in_last_body": last, "inside_sub": in_sub, "programs": total}));
+        }
+    }
     // axis B
     let b1 = vcore::gen01::axis_b_depth1().len();
     let mut lo = 0;
@@ -303,7 +330,7 @@ pub fn drive(tier: &str) -> i32 {
         run.capped = true;
     }
     let mut ev = Evidence::new("exploration");
-    ev.set("rule", "axis B: every binary operator x 5x5 operand types x a 4-value menu per type x 9 contexts (PRINT, assignment to each of the 5 types, IF condition, SELECT subject, FOR bound), operands as literals and as variables, both unary operators, depth-2 shapes in the thorough tier; ill-typed combinations must be rejected with Type mismatch; snippets that end normally are batched into one program (bisected on disagreement), snippets that end in an error run alone. Axis C: every sequence of up to n DATA items x every admissible assignment of variable types x placements of the DATA lines, plus reading past the end. axis A: every ordered forest of n construct nodes over 15 construct kinds (IF, IF/ELSE, IF/ELSEIF/ELSE, single-line IF, two SELECT forms, four FOR forms, WHILE, four DO forms), children placed in the first or in the last body, at module level or inside a SUB; every body carries a trace statement; the program is printed, run on the real pipeline and on the reference semantics, and stdout / end state (error code and row) are compared. Non-trivial = every statement of the program was executed at least once.");
+    ev.set("rule", "axis B: every binary operator x 5x5 operand types x a 4-value menu per type x 9 contexts (PRINT, assignment to each of the 5 types, IF condition, SELECT subject, FOR bound), operands as literals and as variables, both unary operators, depth-2 shapes in the thorough tier; ill-typed combinations must be rejected with Type mismatch; snippets that end normally are batched into one program (bisected on disagreement), snippets that end in an error run alone. Axis C: every sequence of up to n DATA items x every admissible assignment of variable types x placements of the DATA lines, plus reading past the end. axis A: every ordered forest of n construct nodes (n <= 2, thorough 3, also in the layout that writes every loop / SELECT CASE without a block IF inside on one source line, nested ones sharing their row) over 15 construct kinds (IF, IF/ELSE, IF/ELSEIF/ELSE, single-line IF, two SELECT forms, four FOR forms, WHILE, four DO forms), children placed in the first or in the last body, at module level or inside a SUB; every body carries a trace statement; the program is printed, run on the real pipeline and on the reference semantics, and stdout / end state (error code and row) are compared. Non-trivial = every statement of the program was executed at least once.");
     ev.set("exhaustive", !run.capped);
     ev.set("plan", json!(plan));
     ev.assume("reference semantics hand-written from the language definition (DESIGN.md appendix B), restricted to the exact numeric domain; cases the reference does not decide are counted as undecided and not judged");
